@@ -564,6 +564,9 @@ def judge(probe, caller, w, rec, sidx, case, tmap, res, where):
     shape, ps, as_, st, why, dl = case
     isz = lambda j: _np().dtype(tmap.get(ps[j][2], ps[j][2]).lower()).itemsize
     exp_del = [[x[0], x[1], x[2], x[3] * (isz(j) if x[0] == "np" else 1)] for j, x in enumerate(dl)]
+    if rec.get("_ncase") is not None and where.startswith("(final"):
+        caller.n = rec["_ncase"]            # --replay: the same payloads / argument order / malformed variant as in the run
+    ncase = caller.n
     obs = caller.perform(w, case, tmap)
     res["calls"] += 1
     if st == "ok" and any(x[0] == "buf" and x[2] > 0 for x in dl):
@@ -580,7 +583,7 @@ def judge(probe, caller, w, rec, sidx, case, tmap, res, where):
                            f"{'/' + obs['exc'] if obs['exc'] else ''}{obs['del']} :: {detail}")
             ent["replay"] = dict(mode="gen", omp=probe.omp, sidx=sidx, warm=rec.get("_warm"),
                                  state=dict(icap=rec.get("icap", INITCAP), growby=rec.get("growby", GROWBY), hist=rec["hist"], cases=[case],
-                                            _warm=rec.get("_warm")))
+                                            _warm=rec.get("_warm"), _n0=rec.get("_n0run"), _ncase=ncase if where.startswith("(final") else None))
     elif len(res["samples"]) < 1 and st == "ok" and any(x[0] == "buf" and x[2] > 0 for x in dl) and len(ps) == 2:
         res["samples"].append(dict(history=rec["hist"], types=tmap, kernel=obs["kernel"], delivered=obs["del"], contract=exp_del))
 
@@ -598,6 +601,9 @@ def replay_state(probe, caller, rec, sidx, res, index=None):
     modes = [False, True] if (index is not None and len(rec["hist"]) >= 2) else [bool(rec.get("_warm"))]
     for warm in modes:
         rec["_warm"] = rec.get("_warm") if index is None else ([] if warm else None)
+        if index is None and rec.get("_n0") is not None:
+            caller.n = rec["_n0"]
+        rec["_n0run"] = caller.n
         w = World(probe)
         try:
             for i, (op, b, k, et, off) in enumerate(rec["hist"]):
@@ -750,6 +756,7 @@ def random_walk(probe, caller, rng, nsteps, widx):
             break
     tr["meta"] = meta
     tr["src"] = f"walk:{'omp' if probe.omp else 'serial'}:{widx}"
+    tr["omp"], tr["widx"], tr["steps"] = probe.omp, widx, nsteps
     return tr
 
 
@@ -873,7 +880,7 @@ def tlc_model_check(run, tier):
         tag, cfg, workers = job
         wd = C.scratch("kcmc")
         open(os.path.join(wd, tag + ".cfg"), "w").write(cfg)
-        res = C.run_tlc("XoKernelCall", tag + ".cfg", workdir=wd, workers=workers, timeout=3000)
+        res = C.run_tlc("XoKernelCall", tag + ".cfg", workdir=wd, workers=workers, timeout=3000, jvm=("-Xmx4g",))
         shutil.rmtree(wd, ignore_errors=True)
         return tag, res
 
@@ -906,7 +913,7 @@ def tlc_export(run, tier):
         wd = os.path.join(run.tmp, "gen_" + tag)
         os.makedirs(wd, exist_ok=True)
         open(os.path.join(wd, "gen.cfg"), "w").write(GEN_CFG.format(c=consts(**kw)))
-        res = C.run_tlc("XoKernelCallGen", "gen.cfg", workdir=wd, workers=1, timeout=3000, jvm=("-Xmx6g",))
+        res = C.run_tlc("XoKernelCallGen", "gen.cfg", workdir=wd, workers=1, timeout=3000, jvm=("-Xmx4g",))
         if not res["ok"]:
             raise C.MachineryError(f"XoKernelCallGen ({tag}) failed:\n" + res["out"][-3000:])
         path = os.path.join(wd, "export.txt")
@@ -942,7 +949,7 @@ def validate_traces(run, traces):
         json.dump([dict(caps=t["caps"], ev=t["ev"]) for t in batches[bi]], open(path, "w"))
         cfg = "SPECIFICATION TraceSpec\n" + consts(**dict(BASE, Bufs=[1])) + "CHECK_DEADLOCK FALSE\n"
         open(os.path.join(wd, "tr.cfg"), "w").write(cfg)
-        res = C.run_tlc("XoKernelCallTrace", "tr.cfg", workdir=wd, workers=1, timeout=3000, env={"TRACE_FILE": path})
+        res = C.run_tlc("XoKernelCallTrace", "tr.cfg", workdir=wd, workers=1, timeout=3000, env={"TRACE_FILE": path}, jvm=("-Xmx2g",))
         vs = C.tlc_tuples(res["out"], "VERDICT")
         if res["rc"] != 0 or len(vs) != len(batches[bi]):
             raise C.MachineryError(f"trace validation batch {bi}: rc={res['rc']} verdicts={len(vs)}/{len(batches[bi])}\n" + res["out"][-3000:])
@@ -987,7 +994,8 @@ def report_trace_verdicts(run, traces, verdicts, seed):
                 key = f"call:{clause}:{m['desc']}"
             desc = (f"{t['src']} event {pos}: kernel={m['kernel']} case={m['case']} observed={e[4]}{'/' + m['exc'] if m['exc'] else ''} "
                     f"{e[5]} {m.get('bad') or ''}")
-            run.report(key, desc, dict(mode="walk", src=t["src"], seed=seed, caps=t["caps"], ev=t["ev"][:pos], meta=t["meta"][:pos]))
+            run.report(key, desc, dict(mode="walk", src=t["src"], seed=seed, omp=t["omp"], widx=t["widx"], steps=t["steps"],
+                                       failing_event=pos, recorded_events=t["ev"][:pos]))
     return n
 
 
@@ -1007,10 +1015,11 @@ def check(pid, argv=None):
         if rp["mode"] == "gen":
             results = run_workers(run, [dict(omp=rp["omp"], seed=run.seed, shard=0, nshards=1, single=[rp])])
             merge_results(run, results)
-        else:
-            verdicts = validate_traces(run, [rp])
-            rp.setdefault("meta", [dict(desc="?+?", kernel="?", exc="", case=e) for e in rp["ev"]])
-            report_trace_verdicts(run, [rp], verdicts, run.seed)
+        else:       # re-execute the same random history on the library, let TLC judge the new recording
+            results = run_workers(run, [dict(omp=rp["omp"], seed=rp["seed"], shard=0, nshards=1, walks=[rp["widx"]], walk_steps=rp["steps"])])
+            traces = merge_results(run, results)
+            verdicts = validate_traces(run, traces)
+            report_trace_verdicts(run, traces, verdicts, rp["seed"])
         run.finish()
     t1 = time.time()
     with ThreadPoolExecutor(max_workers=2) as ex:
